@@ -227,7 +227,10 @@ class Cover:
     def next_stimulus(self, curs):
         for s in sorted(curs):
             if self.todo[s]:
-                return self.ctx.rng.choice(sorted(self.todo[s])) if self.sample else min(self.todo[s])
+                # publications last: the own sequence number never goes back, and the states before
+                # it still have stimuli to try
+                return (self.ctx.rng.choice(sorted(self.todo[s])) if self.sample
+                        else min(self.todo[s], key=lambda k: ('"Publish"' in k, k)))
         seen = {s: None for s in curs}
         dq = deque(sorted(curs))
         while dq:
